@@ -260,13 +260,23 @@ class Twin:
                 return ACK
             if kind == "resp":
                 return sframe(0xA4, info["payload"])
-            return sframe(0xA5, info["payload"])
+            return sframe(0xA5, info["payload"])          # data; abort = a data frame without payload
         rid = 0x03 if kind == "resp" else 0x04
         return struct.pack("<2BH", rid, 0, len(info["payload"])) + info["payload"]
 
     def send(self, emissions):
         chunk = 0
-        for e in emissions:
+        sent = 0
+        for n_, e in enumerate(emissions):
+            if e[0] == "abort":
+                self.emit("abort", payload=b"")
+                self.trace[-1]["fault"] = "err" if self.trace[-1]["fault"] == "none" else self.trace[-1]["fault"]
+                if self.transport == "serial":
+                    # lock step: the device releases its next frame only when the host has acknowledged this one (response, data packets, abort packet)
+                    self.held, self.held_at = list(emissions[n_ + 1:]), sent + 1
+                    return
+                continue
+            sent += 1
             if e[0] == "resp":
                 _, rtag, status, values, final = e
                 if final and self.final_error is not None:
@@ -294,6 +304,10 @@ class Twin:
             if self.rx[:2] == ACK:
                 self.rx = self.rx[2:]
                 self.trace.append({"ev": "h2d", "kind": "ack"})
+                self.acks += 1
+                if self.held and self.acks >= self.held_at:
+                    held, self.held = self.held, None
+                    self.send(held)
                 continue
             if self.rx[:2] == b"\x5a\xa6":  # ping
                 self.rx = self.rx[2:]
@@ -333,6 +347,9 @@ class Twin:
             # the device may also report the failure only AFTER the data phase, in the final response (a write that fails while programming, a read that ends early)
             if len(self.dev_error) > 2 and self.dev_error[2] == "final" and self.core.shape(tag, flags, params) in ("in", "out"):
                 self.final_error, status = status, 0
+            # ... or ABORT a running device-to-host data phase: after some data packets a data packet of length zero, then the final response with the reason
+            if len(self.dev_error) > 2 and self.dev_error[2] == "abort" and self.core.shape(tag, flags, params) == "in":
+                self.abort_after, self.final_error, status = self.dev_error[3], status, 0
         in_data_phase = self.core.dataout is not None
         shape, ln, out = self.core.on_cmd(tag, flags, params, status)
         self.trace.append({"ev": "h2d", "kind": "cmd", "tag": tag, "crcOk": ok, "shape": shape, "len": ln,
@@ -348,6 +365,13 @@ class Twin:
             # the device-reported error is a fault of the scenario (the call must not succeed)
             self.trace[-1]["fault"] = "err" if self.trace[-1]["fault"] == "none" else self.trace[-1]["fault"]
             return
+        if self.abort_after is not None:
+            data = [e for e in out if e[0] == "data"]
+            if data:
+                k = min(self.abort_after, len(data) - 1)
+                out = [e for e in out if e[0] == "resp" and not e[4]] + data[:k] + [("abort",)] + [e for e in out if e[0] == "resp" and e[4]]
+            self.abort_after = None
+        self.acks = 0
         self.send(out)
 
     def on_data(self, pl, ok):
@@ -362,6 +386,10 @@ class Twin:
 
     expect_cmd_data = False
     final_error = None
+    abort_after = None
+    held = None
+    held_at = 0
+    acks = 0
 
 
 # ------------------------------------------------------------------ operations
@@ -796,7 +824,7 @@ def run(tier):
         for mps in mps_menu:
             for shape, ops in ops_by_shape.items():
                 for op in ops:
-                    lens = [0] if shape in ("cmd", "value") else [1, mps - 1, mps, mps + 1, 3 * mps + 5] + ([0] if op in ("read_memory",) else [])
+                    lens = [0] if shape in ("cmd", "value") else [1, mps - 1, mps, mps + 1, 3 * mps + 5] + ([0] if (op in ("read_memory",) or shape == "out") else [])          # a data phase of zero bytes: no data packet at all (an empty packet means ABORT)
                     for ln in lens:
                         for preset in (False, True):
                             for _rep in range(4 if shape in ("cmd", "value") else 1):      # several draws from the argument value classes
@@ -808,7 +836,7 @@ def run(tier):
                           [("get_property_list_after_family_parse", 0), ("get_property", 0), ("get_property_list", 0)]):
                 jid += 1
                 jobs.append((f"nf-{jid}", transport, mps, calls, None, None, True))
-            for ln in (1, mps, 2 * mps + 3):
+            for ln in (0, 1, mps, 2 * mps + 3):
                 jid += 1
                 jobs.append((f"nf-{jid}", transport, mps, [("load_image", ln)], None, None, True))
                 jid += 1
@@ -859,6 +887,14 @@ def run(tier):
             jid += 1
             jobs.append((f"nf-{jid}", transport, mps, [("generate_key_blob", 16), ("read_memory", mps + 1), ("generate_key_blob", 32)], None, None, True))
             jid += 1
+            for op_, ln_ in (("read_memory", 3 * mps + 5), ("read_memory", mps), ("flash_read_resource", 2 * mps), ("fuse_read", 2 * mps + 1), ("kp_read_key_store", 0)):
+                for after in (0, 1, 2):
+                    jid += 1
+                    jobs.append((f"f-{jid}", transport, mps, [(op_, ln_)], None, (1, r.choice([10002, 10200, 10203, 101]), "abort", after), True))
+            jid += 1
+            jobs.append((f"f-{jid}", transport, mps, [("generate_key_blob", 16)], None, (2, 10002, "abort", 0), True))
+            jid += 1
+            jobs.append((f"f-{jid}", transport, mps, [("read_memory", 2 * mps), ("get_property", 0), ("read_memory", mps + 1)], None, (1, 10002, "abort", 1), True))
             for k in (1, 2):
                 for where in ((), ("final",)):
                     jid += 1
